@@ -155,6 +155,12 @@ class KFACPreconditioner(BaseKFACPreconditioner):
         """
         if allreduce_bucket_cap_mb < 0:
             raise ValueError('allreduce_bucket_cap_mb must be >= 0')
+        if isinstance(assignment_strategy, str):
+            assignment_strategy = AssignmentStrategy[
+                assignment_strategy.upper()
+            ]
+        if isinstance(compute_method, str):
+            compute_method = ComputeMethod[compute_method.upper()]
         if (
             compute_method == ComputeMethod.EIGEN
             and compute_eigenvalue_outer_product
@@ -164,12 +170,6 @@ class KFACPreconditioner(BaseKFACPreconditioner):
                 'colocate_factors must be True to use '
                 'compute_eigenvalue_outer_product',
             )
-        if isinstance(assignment_strategy, str):
-            assignment_strategy = AssignmentStrategy[
-                assignment_strategy.upper()
-            ]
-        if isinstance(compute_method, str):
-            compute_method = ComputeMethod[compute_method.upper()]
 
         size = get_world_size()
         if isinstance(grad_worker_fraction, DistributedStrategy):
